@@ -5,6 +5,7 @@ structural clauses decided there; a change in that support code breaks the depen
 rules are instantiated under the dependent property's id (the verdict is computed again, nothing is copied).
 """
 from ..loader import AnalysisError
+from .common import where
 
 
 def block_rules(chk, repo, rid, which=('qr',), text=None):
@@ -71,3 +72,34 @@ def ownership_rules(chk, repo, rid, text=None):
         n += 1
     chk.floor(rid, n, 12)
     return n
+
+
+def defassign_rules(chk, repo, rid, modules, facts=None):
+    """definite assignment over whole modules: no read of a local that some path leaves unbound (a sweep / iteration
+    loop may run zero times unless its range is provably non-empty under the documented lower bounds `facts`)"""
+    from .. import defassign
+    chk.rule(rid, 'definite assignment: every read of a local variable is preceded by a binding on every path; a `for` '
+                  'loop may run zero times unless its iterable is provably non-empty (literal sequences, range bounds under '
+                  'asserted / documented lower bounds); bindings made under a condition that cannot change are available '
+                  'under the same condition later - the call cannot end in UnboundLocalError for boundary sizes the tests '
+                  'do not visit')
+    nfun = nreads = 0
+    for q, fi in sorted(repo.funcs.items()):
+        if fi.module not in modules:
+            continue
+        d = defassign.DA(fi.node)
+        d.lower.update((facts or {}).get(q, {}))
+        try:
+            d.run()
+        except NotImplementedError as ex:
+            raise AnalysisError(f'{q}: statement kind {ex} not handled by the definite-assignment analysis')
+        nfun += 1
+        nreads += d.nreads
+        bad = {}
+        for node, name, why in d.findings:
+            bad.setdefault(name, (node, why))
+        chk.ob(rid, where(repo, fi, fi.node), f'{fi.qual}: all {d.nreads} reads of locals are definitely assigned', not bad,
+               '; '.join(f'`{n}` {w} (line {nd.lineno})' for n, (nd, w) in sorted(bad.items())), key=f'{rid}|{q}')
+    if nfun == 0:
+        raise AnalysisError(f'definite assignment: no function found in modules {sorted(modules)}')
+    return nfun
